@@ -16,6 +16,12 @@ CLAIMED = {
             "documented structure. Absence is shown only on the generated cases.",
             "Trusted: torch matmul/reshape for the checker's own contraction; Hypothesis generation. Not covered: CUDA.",
             "DESIGN.md 4/C03"),
+    "C04": ("property-based testing (Hypothesis): generated operator expressions vs. bit-exact dense tensordot reference",
+            "Generated search over operator expressions with independent (mostly pairwise distinct) row/column/inner size "
+            "lists, rank profiles, batch shapes and dtypes; bit-exact oracle on integer payloads so transposed or crossed "
+            "contractions cannot hide; product ranks, result kind, shape metadata and dtype checked.",
+            "Trusted: torch tensordot on the checker's dense contraction. Not covered: CUDA.",
+            "DESIGN.md 4/C04"),
 }
 
 NOT_YET = {}
